@@ -76,12 +76,18 @@ class Teardown:
         self.sites = {"moveout": set(), "release": set(), "free": set(), "destroy": set()}
 
     # -- use after free, for every event that touches a box
+    SETTLE = ("user", "indirect", "handle_drop", "return", "resume", "free", "abort", "panic")
+
     def on_event(self, eng, ev, st):
         for b in touches(ev):
             if ("freed", b) in st.flags and ev.kind != "free":
                 eng.violate("TS-4", "use-after-free:%s" % ev.kind, "allocation %s is accessed (%s) after it was freed on this path" % (show(b), ev.kind), ev.b, st)
-        if ("unwinding",) == () :
-            pass
+        if ev.kind in self.SETTLE:
+            pend = [f for f in st.flags if f[0] == "give_pending"]
+            if pend:
+                for f in pend:
+                    self._given_up(eng, Ev("set", f[2], None, box=f[1]), st, f[1])
+                return rem(st, lambda f: f[0] == "give_pending")
         return None
 
     def on_moveout(self, eng, ev, st):
@@ -177,7 +183,35 @@ class Teardown:
                 eng.violate("GIVE-1", "given-up-without-destroy:%s:%s" % (f, short_entry(eng.name)), "%s takes the last strong reference of %s and releases its implicit weak, but the object's `%s` is never dropped: %s" % (
                     short_entry(eng.name), show(b), f, "the table's storage is lost even when every adoption was undone before the call" if f == "links" else "the value leaks"), ev.b, st)
 
+    def _slot_check(self, eng, ev, st):
+        """UNW-1 / TS-1: a handle that lives in the caller (`this: &mut Rc<T>`) and was dropped in place must have been
+        replaced by the time control goes back to the caller, on the normal path and on every unwinding one: otherwise
+        the caller is left holding a handle whose share was already given back."""
+        for fl in st.flags:
+            if fl[0] == "slot_dropped":
+                unw = any(f[0] == "unwinding" for f in st.flags)
+                eng.violate("UNW-1" if unw else "TS-1", "caller-handle-left-dropped", "the handle the caller passed by `&mut` (%s) is dropped in place and control %s without a new handle having been written there: the caller keeps a handle whose reference was already released (use after free / double drop when it is used or dropped)" % (
+                    show(fl[1]), "unwinds back to the caller (a destructor run by that drop panicked)" if unw else "returns"), fl[2], st)
+
+    def on_resume(self, eng, ev, st):
+        self._slot_check(eng, ev, st)
+        return None
+
+    def on_store(self, eng, ev, st):
+        if any(fl[0] == "slot_dropped" and fl[1] == ev.place for fl in st.flags):
+            return rem(st, lambda fl: fl[0] == "slot_dropped" and fl[1] == ev.place)
+        return None
+
     def on_handle_drop(self, eng, ev, st):
+        v = ev.get("value")
+        if v is not None and v[0] == "deref" and v[1][0] == "param" and self.entry_kind not in ("rc_drop", "weak_drop"):
+            eng.obl("UNW-1", "caller-handle-dropped-in-place", ev.b)
+            st = add(st, ("slot_dropped", v, ev.b))
+            r = self._on_handle_drop(eng, ev, st)
+            return r if r is not None else st
+        return self._on_handle_drop(eng, ev, st)
+
+    def _on_handle_drop(self, eng, ev, st):
         if ev.handle == "Weak" and ev.box is not None:
             self._given_up(eng, ev, st, ev.box)
         # TS-6: a strong handle whose drop would destroy the value may only exist (be dropped) for a box
@@ -230,8 +264,11 @@ class Teardown:
             if ("decw", b) in st.flags:
                 eng.violate("TS-3", "double-release", "the weak count of %s is lowered twice on one path%s" % (show(b), " (unwinding)" if unwinding else ""), ev.b, st)
             dead = st.strong(b) <= DEAD
+            if self.entry_kind not in ("rc_drop", "weak_drop") and not is_elem_box(b):
+                # a plain decrement frees nothing by itself: what the given-up allocation still contains matters where
+                # control can leave the library next (GIVE-1, settled in on_event)
+                st = add(st, ("give_pending", b, ev.b))
             if dead:
-                self._given_up(eng, ev, st, b)
                 for fl in st.flags:
                     if (fl[0] == "mv" and fl[1] == b) or (fl[0] == "held" and fl[2] == b):
                         f = fl[2] if fl[0] == "mv" else fl[3]
@@ -272,6 +309,7 @@ class Teardown:
 
     def on_return(self, eng, ev, st):
         eng.obl("TS-5", "return", ev.b)
+        self._slot_check(eng, ev, st)
         for fl in st.flags:
             if fl[0] == "mv":
                 if not (sub(ev.value, fl[3]) or ev.value == fl[3]):
